@@ -36,12 +36,12 @@ def check(ctx, report):
     report.floor('C06.R2', 100, 'registry members')
 
 
-def ssl2_header(ctx, report):
+def ssl2_header(ctx, report, RULE='C06.R4'):
     """R4: SSL 2.0 record header: two bytes, MSB of the first set, low 15 bits = record length (draft-hickman 5.1)."""
     import ast
-    report.rule('C06.R4', 'SSL 2.0 record header: 2 bytes, MSB set, 15 bit length of what follows')
+    report.rule(RULE, 'SSL 2.0 record header: 2 bytes, MSB set, 15 bit length of what follows')
     c = ctx.model.cls('SslRecord')
-    report.count('C06.R4', 2)
+    report.count(RULE, 2)
     from ..symeval import NotEvaluable, evaluate
     from ..values import Sym, show
     comp = ctx.canon.canon(c, 'compose')
@@ -53,7 +53,7 @@ def ssl2_header(ctx, report):
         head.append(e)
         width += e.w
     if width != 2:
-        report.add('C06.R4', f.construct + '@header', 'composer does not start with a 2 byte header')
+        report.add(RULE, f.construct + '@header', 'composer does not start with a 2 byte header')
     else:
         # tabulate the header bytes over body lengths on both sides of every bit boundary of the 15 bit length
         def leaf_for(n):
@@ -64,21 +64,21 @@ def ssl2_header(ctx, report):
             return leaf
         try:
             for n in (0, 1, 255, 256, 259, 16383, 16384, 20033, 32767):
-                report.count('C06.R4')
+                report.count(RULE)
                 got = b''
                 for e in head:
                     got += (evaluate(e.val, leaf_for(n)) & ((1 << (8 * e.w)) - 1)).to_bytes(e.w, 'big')
                 want = (n | 0x8000).to_bytes(2, 'big')
                 if got != want:
-                    report.add('C06.R4', f.construct + '@header-value',
+                    report.add(RULE, f.construct + '@header-value',
                                'a body of %d bytes is announced by the header %s, the specification says %s' % (n, got.hex(), want.hex()))
                     break
         except NotEvaluable as e:
-            report.add('C06.R4', f.construct + '@header', 'header value is not a function of the body length: %s' % e)
-    ssl2_parse_header(ctx, report, c)
+            report.add(RULE, f.construct + '@header', 'header value is not a function of the body length: %s' % e)
+    ssl2_parse_header(ctx, report, c, RULE)
 
 
-def ssl2_parse_header(ctx, report, c):
+def ssl2_parse_header(ctx, report, c, RULE='C06.R4'):
     """parser side of R4, decided by tabulating the extracted header arithmetic over every value of the first header byte
     (draft-hickman-netscape-ssl-00 5.1): MSB set -> 2 byte header, RECORD-LENGTH = ((b0 & 0x7f) << 8) | b1, no padding;
     MSB clear -> 3 byte header, RECORD-LENGTH = ((b0 & 0x3f) << 8) | b1 (0x40 is IS-ESCAPE), PADDING = third byte"""
@@ -92,7 +92,7 @@ def ssl2_parse_header(ctx, report, c):
     ops = [n for n in nodes if isinstance(n, Op) and n.side == 'parse']
     u1 = [o for o in ops if o.prim == 'parse_numeric' and o.args.get('size') == 1]
     if len(u1) < 3:
-        report.add('C06.R4', p.construct + '@header', 'parser does not read the header as single bytes (2 or 3 byte form)')
+        report.add(RULE, p.construct + '@header', 'parser does not read the header as single bytes (2 or 3 byte form)')
         return
     k0, k1 = u1[0].args.get('name'), u1[1].args.get('name')
     length = None
@@ -103,7 +103,7 @@ def ssl2_parse_header(ctx, report, c):
             break
     pad_ops = [o for o in ops if o.prim == 'parse_raw' and o.args.get('name') == 'padding']
     if length is None or not pad_ops:
-        report.add('C06.R4', p.construct + '@header', 'cannot find the declared record length check / the padding read of the SSL 2.0 record parser')
+        report.add(RULE, p.construct + '@header', 'cannot find the declared record length check / the padding read of the SSL 2.0 record parser')
         return
     pad = pad_ops[0].args.get('size')
     PADV = 7
@@ -122,21 +122,21 @@ def ssl2_parse_header(ctx, report, c):
     try:
         for b0 in range(256):
             for b1 in (0, 1, 0x41, 0xff):
-                report.count('C06.R4')
+                report.count(RULE)
                 got = evaluate(length, leaf_for(b0, b1))
                 gpad = evaluate(pad, leaf_for(b0, b1))
                 want = ((b0 & 0x7f) << 8 | b1) if b0 & 0x80 else ((b0 & 0x3f) << 8 | b1)
                 wpad = 0 if b0 & 0x80 else PADV
                 form = '2-byte' if b0 & 0x80 else '3-byte'
                 if got != want:
-                    report.add('C06.R4', p.construct + '@record-length[%s]' % form,
+                    report.add(RULE, p.construct + '@record-length[%s]' % form,
                                'header bytes %02x %02x: RECORD-LENGTH computed as %d, the specification says %d' % (b0, b1, got, want))
                 if gpad != wpad:
-                    report.add('C06.R4', p.construct + '@padding[%s]' % form,
+                    report.add(RULE, p.construct + '@padding[%s]' % form,
                                'header bytes %02x %02x: %s padding bytes skipped, the specification says %s' % (
                                    b0, b1, gpad, 'the value of the third header byte' if wpad else 0))
     except NotEvaluable as e:
-        report.add('C06.R4', p.construct + '@header', 'record length / padding is not a function of the header bytes: %s' % e)
+        report.add(RULE, p.construct + '@header', 'record length / padding is not a function of the header bytes: %s' % e)
         return
-    report.sample({'rule': 'C06.R4', 'parser_length_expr': show(length), 'padding_expr': show(pad),
+    report.sample({'rule': RULE, 'parser_length_expr': show(length), 'padding_expr': show(pad),
                    'tabulated': '256 values of byte 0 x 4 values of byte 1, both header forms'})
